@@ -564,7 +564,14 @@ def check_rewrote_site(res, universe, f, g, j, regions, ref_regions, site_pos, r
     orig = M.get_block(f.ast, bpath).stmts[start:stop]
     m_s, m_x = M.marks_of(orig, universe), M.marks_of(X, universe)
     if m_s != m_x:
-        res.fail(f'{tag}where-index/watermarks-of-site-changed', cj, expected=sorted(m_s), got=sorted(m_x))
+        # a loop whose iterable is statically empty is dropped: only `t = <iterable>` is left (split: "empty
+        # regions are dropped entirely"; unroll_for: no main loop and no peeled copies for a known length 0)
+        dropped = (tag.startswith(('unroll_for', 'split')) and not m_x and len(X) == 1 and length == 1
+                   and isinstance(orig[0], A.ForStmt) and isinstance(X[0], A.Assign) and X[0].expr.is_equiv(orig[0].iterable))
+        if dropped:
+            res.cls('statically-empty-loop-dropped')
+        else:
+            res.fail(f'{tag}where-index/watermarks-of-site-changed', cj, expected=sorted(m_s), got=sorted(m_x))
     # the reported edit
     if g.edits is None:
         res.fail(f'{tag}editlog/aimed-strategy-reports-nothing', cj, expected='an edit log', got=None)
@@ -1155,13 +1162,13 @@ class History:
                 res.fail(f'{sname}: editlog/reporting-pass-reports-nothing', self.snapshot(), expected='an edit log', got=None)
             elif g.ast is not f.ast and not checked:
                 check_step_log(res, f, g, self.snapshot(), f'{sname}: ')
-        self.track(f, g, reporting)
+        self.track(f, g, reporting, sname)
         self.versions.append(g)
         self.reporting.append(reporting)
         if not reporting:
             self.n_opaque += 1
 
-    def track(self, f, g, reporting):
+    def track(self, f, g, reporting, sname=''):
         """Move every held cursor's reference position across the step f -> g.  A statement consumed *together with
         others* by one edit (a multi-statement rewrite window) shares their image, so their watermarks become
         legitimate company (EditLog._forward_region: "members one edit consumed together share its image")."""
@@ -1185,6 +1192,17 @@ class History:
                 if b == blk and rem >= 2 and idx < hi and lo < idx + rem:
                     h['extra'] |= M.marks_of(M.get_block(f.ast, b).stmts[idx:idx + rem], self.prog.universe)
             h['pos'] = M.model_forward(log, pos[1]) if pos[0] == 'stmt' else M.model_forward_region(log, pos[1], pos[2], pos[3])
+            if sname in ('unroll_for', 'split') and h['pos'][0] != 'raise' and not h.get('emptied'):
+                # a statically empty loop is dropped by these two (only `t = <iterable>` stays), so a statement may
+                # legitimately lose every watermark it had
+                try:
+                    before = M.marks_of(resolve_norm(f.ast, pos), self.prog.universe)
+                    after = M.marks_of(resolve_norm(g.ast, h['pos']), self.prog.universe)
+                except (IndexError, KeyError):
+                    continue
+                if before and not after:
+                    h['emptied'] = True
+                    self.res.cls(self.cp + ':cursor-on-a-dropped-empty-loop')
 
     # -- invariant ---------------------------------------------------------------
     def invariant(self):
@@ -1248,7 +1266,7 @@ class History:
                          expected=f'statements descending from the one marked {sorted(h["marks"])}',
                          got=f'{str(c)[:60]} marked {sorted(mt)}')
                 continue
-            if h['marks'] and not mt:
+            if h['marks'] and not mt and not h.get('emptied'):
                 res.fail('forward/cursor-resolves-to-a-statement-with-no-trace-of-its-origin', self.snapshot(),
                          expected=f'some of {sorted(h["marks"])}', got=str(c)[:60] + ': ' + T[0].format()[:100])
                 continue
